@@ -147,11 +147,24 @@ def flatten_declared(cfg: Dict[str, Any]) -> Dict[str, List[Dict[str, Any]]]:
     net = (cfg.get("simulation") or {}).get("network") or {}
     nodes = net.get("nodes") or []
     out[NET].append(F("count", ["nodes"], [len(nodes) if not net.get("node_sets") else "*"]))
+    # the `defaults' block: written at the top level or inside `simulation' (the shipped UC7 scenarios and their notebook:
+    # "the simulation `defaults` section"); it gives the value of an option that the item itself does not state.  Where an
+    # item states the option AND the block names it, nothing is claimed (no document says which one wins).
+    dflt = {**((cfg.get("simulation") or {}).get("defaults") or {}), **(cfg.get("defaults") or {})}
+
+    def with_default(item: Dict[str, Any], own: str, block: str) -> str:
+        if isinstance(item, dict) and item.get(own) is not None:
+            return "*" if block in dflt else norm(item[own])
+        return norm(dflt[block]) if dflt.get(block) is not None else ""
+
     for n in nodes:
         h = str(n.get("hostname"))
         t = str(n.get("type"))
         fs = out.setdefault(h, [])
-        fs.append(F("node", [h], [t, _opt(n, "operating_state").upper(), _opt(n, "start_up_duration"), _opt(n, "shut_down_duration")]))
+        fs.append(F("node", [h], [t, _opt(n, "operating_state").upper(), with_default(n, "start_up_duration", "node_start_up_duration"),
+                                  with_default(n, "shut_down_duration", "node_shut_down_duration")]))
+        if "node_scan_duration" in dflt or n.get("node_scan_duration") is not None:
+            fs.append(F("nodeopt", [h, "node_scan_duration"], [with_default(n, "node_scan_duration", "node_scan_duration")]))
         for k in ("default_gateway", "dns_server"):
             if n.get(k) is not None:
                 fs.append(F("nodeopt", [h, k], [norm(n[k])]))
@@ -199,7 +212,12 @@ def flatten_declared(cfg: Dict[str, Any]) -> Dict[str, List[Dict[str, Any]]]:
                 for ok, ov in (s.get("options") or {}).items():
                     if ok == "type":
                         continue
+                    if str(ok) == "fixing_duration" and cat == "service" and "service_fix_duration" in dflt:
+                        continue  # (stated twice: no claim, see above)
                     fs.append(F("opt", [h, name, str(ok)], [_optval(str(ok), ov)]))
+                if cat == "service" and dflt.get("service_fix_duration") is not None:
+                    own = (s.get("options") or {}).get("fixing_duration")
+                    fs.append(F("opt", [h, name, "fixing_duration"], ["*" if own is not None else _optval("fixing_duration", dflt["service_fix_duration"])]))
         # users
         for u in n.get("users") or []:
             fs.append(F("user", [h, norm(u.get("username"))], [norm(u.get("password")), _opt(u, "is_admin")]))
@@ -290,7 +308,7 @@ def flatten_built(game) -> Dict[str, List[Dict[str, Any]]]:
         t = _type_of(node)
         fs = out.setdefault(h, [])
         fs.append(F("node", [h], [t, norm(node.operating_state), norm(node.config.start_up_duration), norm(node.config.shut_down_duration)]))
-        for k in ("default_gateway", "dns_server"):
+        for k in ("default_gateway", "dns_server", "node_scan_duration"):
             v = getattr(node.config, k, None)
             if v is not None:
                 fs.append(F("nodeopt", [h, k], [norm(v)]))
